@@ -690,7 +690,7 @@ func c01CheckTx(s *c01TxScn) {
 	}
 }
 
-func c01Tx(maxN int, types []int, symHash bool) {
+func c01Tx(maxN, maxTotal int, types []int) {
 	c01TxCfg()
 	c01InitKeys()
 	var s c01TxScn
@@ -699,16 +699,23 @@ func c01Tx(maxN int, types []int, symHash bool) {
 	s.chain = vChoice("chain", 2)
 	c01TxScalars(&s)
 	vAssume(s.height < 1<<48) // SetStateNumHint refuses larger heights
-	c01TxHtlcs(&s, maxN, symHash)
+	c01TxHtlcs(&s, maxN, true)
+	if len(s.htlcs[0])+len(s.htlcs[1]) > maxTotal {
+		vAssume(false)
+	}
 	c01CheckTx(&s)
 }
 
-// VerifC01Tx: up to 1 HTLC per direction; legacy, zero-fee-htlc anchors,
-// taproot final.
-func VerifC01Tx() { c01Tx(1, []int{0, 3, 6}, true) }
+// VerifC01Tx1: at most one pending HTLC (either direction); legacy,
+// zero-fee-htlc anchors, taproot final.
+func VerifC01Tx1() { c01Tx(1, 1, []int{0, 3, 6}) }
 
-// VerifC01TxDeep: up to 2 HTLCs per direction, all seven channel types.
-func VerifC01TxDeep() { c01Tx(2, []int{0, 1, 2, 3, 4, 5, 6}, true) }
+// VerifC01Tx1All: the same for all seven channel types.
+func VerifC01Tx1All() { c01Tx(1, 1, []int{0, 1, 2, 3, 4, 5, 6}) }
+
+// VerifC01Tx2: up to one pending HTLC per direction (payment hashes arbitrary,
+// may coincide); legacy, zero-fee-htlc anchors, taproot final.
+func VerifC01Tx2() { c01Tx(1, 2, []int{0, 3, 6}) }
 
 // ---------------------------------------------------------------------------
 // the canonical output order
